@@ -17,6 +17,7 @@ import (
 	"strconv"
 	"sync"
 	"testing"
+	"strings"
 	"time"
 )
 
@@ -25,6 +26,7 @@ type replayFile struct {
 	Harness string                            `json:"harness"`
 	Label   string                            `json:"label"`
 	Kind    string                            `json:"kind"`
+	Detail  string                            `json:"detail"`
 	Inputs  map[string]map[string]interface{} `json:"inputs"`
 }
 
@@ -238,8 +240,24 @@ func RunReplay(t *testing.T, harnesses map[string]func()) {
 	if r.Threads {
 		runs = 300 // schedule-dependent counterexample: retry until the interleaving shows up
 	}
+	// a harness that does not return is a deadlock (the Go runtime cannot report it inside a test binary);
+	// when a deadlock is what the engine predicted, a short limit per try is enough to confirm it
+	limit := 120 * time.Second
+	if strings.Contains(r.Detail, "deadlock") {
+		limit = 5 * time.Second
+		if runs > 60 {
+			runs = 60
+		}
+	}
 	for i := 0; i < runs; i++ {
-		res := runOnce(h)
+		resCh := make(chan string, 1)
+		go func() { resCh <- runOnce(h) }()
+		var res string
+		select {
+		case res = <-resCh:
+		case <-time.After(limit):
+			res = fmt.Sprintf("panic deadlock: the harness did not return within %v", limit)
+		}
 		if res != "ok" || i == runs-1 {
 			fmt.Println("VERIF-REPLAY-RESULT: " + res)
 			return
